@@ -110,12 +110,15 @@ def run(ctx):
             reqs.append(("c03_history", [sq, list(s), history(rng, s, rng.randrange(1, 7))]))
         # exhaustive interleavings (query, set, query) over a small complex family
         small = [s for s in structs if len(s) <= 5 and "+" in s][:40]
+        # complexes with unpaired positions inside a closed hairpin (non-empty enclosed_domains) on a strand that moves
+        small += ["(.)+.", ".+(.)", "(.)+(.)", "(.).+.", "((.))+.", ".+(.)+."]
         for s in small:
             sq = gs.seq_for(rng, s, names=("a", "b"))
             n = s.count("+") + 1
             for q1 in Q0 + [None]:
                 for v in range(-n, 2 * n + 1, max(1, n)):
-                    for q2 in ["pair_table", "strand_table", "exterior_domains", "sequence", "kernel_string"]:
+                    for q2 in ["pair_table", "strand_table", "exterior_domains", "enclosed_domains", "sequence",
+                               "kernel_string", "rotate_pt", "rotate", "is_connected"]:
                         ops = ([[q1]] if q1 else []) + [["set_turns", v], [q2], ["get_loop_index", [0, 0]], ["get_paired_loc", [0, 0]]]
                         reqs.append(("c03_history", [sq, list(s), ops]))
         diffs += correspond(ctx, "view-histories", reqs)
